@@ -254,9 +254,20 @@ async fn apply_remote_deletes(
                 // NUL-delimited: a file name may contain a newline
                 let _ = write!(list, "{}/{}\0", remote_root, rel.display());
             }
+            // The remote side must never act on a list it received only in part: if this
+            // process dies mid-write the stream just ends, and `xargs -0` would run `rm` on
+            // the cut-off last record — a shorter path that may name a file that has to stay.
+            // So stage the list, check its byte count (as the push delivery does), then delete.
+            let staged = format!(
+                "{}/.copia-delete-list.copia-tmp",
+                remote_root.replace('\\', "\\\\").replace('\'', "\\'")
+            );
+            let n = list.len();
             if let Ok(mut child) = tokio::process::Command::new("ssh")
                 .arg(host)
-                .arg("xargs -0 rm -f --")
+                .arg(format!(
+                    "cat > $'{staged}' && test \"$(wc -c < $'{staged}')\" -eq {n} && xargs -0 rm -f -- < $'{staged}'; rm -f -- $'{staged}'"
+                ))
                 .stdin(std::process::Stdio::piped())
                 .stdout(std::process::Stdio::null())
                 .stderr(std::process::Stdio::piped())
